@@ -28,6 +28,9 @@ pub enum Op {
     /// direct bus write to 0xF0..=0xFF
     Port(u8, u8),
     StepMode(bool),
+    /// arm the board interrupt (write 0b11xxxxxx to 0xF2: source 1..=6, falling?, IE, edge) and then
+    /// drive the selected input through both edges, so that the board's interrupt status gets latched
+    BoardInt(u8, bool, u8),
 }
 
 #[derive(Clone, Debug, Serialize, Deserialize)]
@@ -83,6 +86,7 @@ fn op_strategy() -> impl Strategy<Value = Op> {
         2 => (0u8..3, any::<bool>()).prop_map(|(i, v)| Op::Uio(i, v)),
         8 => (0xF0u8..=0xFF, any::<u8>()).prop_map(|(a, v)| Op::Port(a, v)),
         1 => any::<bool>().prop_map(Op::StepMode),
+        2 => (1u8..=6, any::<bool>(), 0u8..4).prop_map(|(s, f, e)| Op::BoardInt(s, f, e)),
     ]
 }
 
@@ -155,6 +159,19 @@ fn apply(m: &mut Machine, op: &Op) {
         },
         Op::Port(a, v) => m.raw_mut().bus_mut().write(*a, *v),
         Op::StepMode(a) => m.set_step_mode(if *a { StepMode::Assembly } else { StepMode::Real }),
+        Op::BoardInt(src, falling, ie_edge) => {
+            m.raw_mut().bus_mut().write(0xF2, 0xC0 | (ie_edge & 3) << 4 | (*falling as u8) << 3 | (src & 7));
+            for level in [false, true, false] {
+                match src {
+                    1 => m.set_universal_input_output1(level),
+                    2 => m.set_universal_input_output2(level),
+                    3 => m.set_universal_input_output3(level),
+                    4 => m.set_analog_input1(if level { 5.0 } else { 0.0 }),
+                    5 => m.set_analog_input2(if level { 5.0 } else { 0.0 }),
+                    _ => m.set_jumper1(level),
+                }
+            }
+        }
     }
 }
 
@@ -326,6 +343,12 @@ fn check_master_effects(a: &Machine, before: &Machine, which: &str) -> Res {
     if (b.dasr().bits() ^ pb.dasr().bits()) & 0xC0 != 0 {
         return f("board-jumpers-touched", "jumper levels changed by the reset".into());
     }
+    // the statement lists exactly what a master reset clears on the board (output ports, interrupt
+    // control, fan, UIO directions); the latched interrupt status (DA-ISR, read at 0xF3) is not among
+    // them and the title says "exactly the documented state": it survives
+    if b.daisr().bits() != pb.daisr().bits() {
+        return f("board-interrupt-status-touched", format!("board interrupt status {:02X} -> {:02X} by the reset", pb.daisr().bits(), b.daisr().bits()));
+    }
     if which != "load" && (a.stacksize() != before.stacksize() || a.programsize() != before.programsize()) {
         return f("limits-touched", "reset changed the stack/program size limits".into());
     }
@@ -413,6 +436,7 @@ pub struct Stats {
     pub prefixes: u64,
     pub lockstep_edges: u64,
     pub rich_prefixes: u64,
+    pub latched_board_int: u64,
 }
 
 fn richness(m: &Machine) -> u32 {
@@ -439,6 +463,9 @@ pub fn check_case(c: &Case, edges: usize) -> (Verdict, Stats) {
         if richness(&m) >= 2 {
             st.rich_prefixes += 1;
         }
+        if !m.bus().board().daisr().is_empty() {
+            st.latched_board_int += 1;
+        }
         let r = catch(|| -> Result<u64, (String, String)> {
             check_cpu_reset(&m)?;
             check_master_reset(&m)?;
@@ -463,7 +490,7 @@ pub fn run(ctx: &Ctx) -> Evidence {
         "exploration",
         "proptest histories (<= 40 ops) of program loads (stack size 0..64/NOSET, program size n/AUTO/NOSET), clock edges in both step modes, key interrupt, continue, resets, input and board setters, direct writes to 0xF0-0xFF; after EVERY prefix a CPU reset, a master reset and a load of a follow-up program are applied to clones and checked (power-on values via getters + hook snapshot, preserved parts, forgetting/retention as metamorphic clone relations, lock-step of the follow-up program with a fresh machine); non-trivial = prefix state with at least two of {output register, MICR, board output/config, pending key interrupt, non-reset micro-state, non-zero registers}; distinct by hash of (case, prefix)",
     );
-    ev.assumptions.push("comparator, UIO and interrupt-status bits of the board after a master reset are not constrained (the statement is silent)".into());
+    ev.assumptions.push("comparator and UIO level bits of the board's status register after a master reset are not constrained (the statement is silent); the latched interrupt status (DA-ISR) is required to survive, since it is not in the statement's list of what a master reset clears".into());
     ev.assumptions.push("MISR status bits are not part of any reset clause".into());
     let edges = ctx.tier.pick(600, 2000);
     if let Some(path) = &ctx.replay {
@@ -486,6 +513,7 @@ pub fn run(ctx: &Ctx) -> Evidence {
             *e.classes.entry("prefixes-checked(x3 resets)".into()).or_insert(0) += st.prefixes;
             *e.classes.entry("follow-up-lockstep-edges".into()).or_insert(0) += st.lockstep_edges;
             *e.classes.entry("rich-prefixes".into()).or_insert(0) += st.rich_prefixes;
+            *e.classes.entry("prefixes-with-latched-board-interrupt-status".into()).or_insert(0) += st.latched_board_int;
             if st.rich_prefixes > 0 {
                 e.nontrivial(&serde_json::to_string(c).unwrap());
             }
